@@ -108,11 +108,69 @@ def outcome_kinds(res):
 
 # ---------------------------------------------------------------------------
 # correspondence of a batch of histories
+BATCH = 48
+
+
+def run_both(hists, nslots, watch, jobs=8):
+    """-> (model results, implementation results), one entry per history, canonicalised"""
+    ct = class_table()
+    reqs = [("histories", [ct, nslots, [[list(o) for o in h] for h in hists[k:k + BATCH]], list(watch)])
+            for k in range(0, len(hists), BATCH)]
+    out = []
+    for res in (run_model(reqs, jobs=jobs), run_impl(reqs, jobs=jobs)):
+        flat = []
+        for rq, r in zip(reqs, res):
+            n = len(rq[1][2])
+            if isinstance(r, Err) or not isinstance(r, list) or len(r) != n:
+                flat += [r if isinstance(r, Err) else Err("BadBatch")] * n
+            else:
+                flat += [canon_obs("history", x) for x in r]
+        out.append(flat)
+    return out[0], out[1]
+
+
 def correspond_histories(ctx, label, hists, nslots, watch, jobs=8):
-    """hists: list of op lists.  Returns disagreements as (index, request, model, impl)."""
-    reqs = [request(h, nslots, watch) for h in hists]
-    diffs = correspond(ctx, label, reqs, canon=canon_obs, jobs=jobs)
+    """hists: list of op lists.  Returns disagreements as (index, request, model, impl) where
+    request = ("history", [class table, nslots, ops, watch]); fills the coverage statistics."""
+    import collections
+    if not hists:
+        return []
+    m, i = run_both(hists, nslots, watch, jobs=jobs)
+    diffs, kinds, sizes, distinct = [], collections.Counter(), collections.Counter(), set()
+    steps = 0
+    for k, (h, a, b) in enumerate(zip(hists, m, i)):
+        sizes[len(h)] += 1
+        bad = isinstance(a, Err) or a != b
+        if not bad:
+            for step in a:
+                o = step[0]
+                if o[0] == "raised" and o[1] in MODEL_FAULTS:
+                    bad = True
+        if bad:
+            diffs.append((k, request(h, nslots, watch), a, b))
+            continue
+        steps += len(a)
+        for ok in outcome_kinds(b):
+            kinds[ok] += 1
+        distinct.add(enc(b[-1][1:]) if b else "")       # distinct final observable states
+    st = ctx.cov["correspondence"].setdefault(label, {"cases": 0, "steps": 0, "disagreements": 0, "outcomes": {},
+                                                      "history_length_histogram": {}, "distinct_results": 0})
+    st["cases"] += len(hists)
+    st["steps"] += steps
+    st["disagreements"] += len(diffs)
+    for k, v in kinds.items():
+        st["outcomes"][k] = st["outcomes"].get(k, 0) + v
+    for k, v in sizes.items():
+        st["history_length_histogram"][str(k)] = st["history_length_histogram"].get(str(k), 0) + v
+    st["distinct_results"] += len(distinct)
+    ctx.add_eval(len(hists), len(distinct),
+                 samples=[{"history": hists[0], "slots": nslots, "observed_classes": [NAMES[c] for c in watch],
+                           "model_last_step": repr(m[0][-1] if isinstance(m[0], list) and m[0] else m[0])[:600],
+                           "impl_last_step": repr(i[0][-1] if isinstance(i[0], list) and i[0] else i[0])[:600]}])
     return diffs
+
+
+MODEL_FAULTS = {"BadRequest", "OutOfFuel", "Unmodelled", "Stack", "BadLine"}
 
 
 def first_divergence(m, i):
